@@ -5,8 +5,14 @@ lean/XgiModel/C03/Drive.lean.  `call` performs the public call on a real `xgi.Si
 two order hints the model takes (they only reorder, see SC.lean): `hint` = member sets of the edges the call
 created, in creation order (the order of automatic face ids is Python set-iteration order), `norder` = the nodes
 the call created, in creation order; for `close` additionally `orders` = `list(frozenset)` of every simplex.
+
+`copy` / `pickle` / `construct` (= `SimplicialComplex(S, **attr)`) are *queries* like `has_simplex`: the complex the
+history runs on is left as it is, the clone is observed with `hg.snapshot` and travels in the snapshot under "clone"
+(compared with `SC.copy` / `HG.pickleRoundTrip` / `SC.ofComplex` of the model, lean/XgiModel/C03/Copy.lean).  These ops
+and `freeze` have generator weight 0 here; the checks that want them pass weights (props/c03.py does).
 """
 import itertools
+import pickle
 
 import xgi
 
@@ -41,7 +47,7 @@ class Gen:
         "remove_simplex_id": 8, "remove_simplex_ids_from": 6, "remove_node": 6, "remove_nodes_from": 3,
         "add_edge": 3, "add_edges_from": 3, "add_weighted_edges_from": 1, "remove_edge": 2, "remove_edges_from": 2,
         "close": 2, "cleanup": 2, "has_simplex": 6, "add_node": 2, "add_nodes_from": 1, "clear": 0.3,
-        "clear_edges": 0.3, "freeze": 0,
+        "clear_edges": 0.3, "freeze": 0, "copy": 0, "pickle": 0, "construct": 0,
     }
 
     def __init__(self, rng, weights=None, malformed=0.03):
@@ -169,8 +175,10 @@ class Gen:
             return {"op": name, "items": items, "attr": enc_attrs_req(self.attrs(0.3))}
         if name == "clear":
             return {"op": name, "remove_net_attr": b()}
-        if name in ("clear_edges", "freeze"):
+        if name in ("clear_edges", "freeze", "copy", "pickle"):
             return {"op": name}
+        if name == "construct":
+            return {"op": name, "attr": enc_attrs_req(self.attrs(0.4))}
         raise AssertionError(name)
 
 
@@ -199,6 +207,14 @@ def gen_history(rng, lo=1, hi=30, weights=None, malformed=0.03):
 # ----------------------------------------------------------------------------- execution on the implementation
 
 _RES = {}
+_CLONE = {}
+
+
+def _clone_snap(T):
+    """observation of a clone: the undirected snapshot without the outcome field"""
+    c = hg.snapshot(T, "ok")
+    c.pop("out", None)
+    return c
 
 
 def _plain(S, op):
@@ -242,6 +258,15 @@ def _plain(S, op):
         return S.clear_edges()
     if name == "freeze":
         return S.freeze()
+    if name == "copy":
+        _CLONE[id(S)] = _clone_snap(S.copy())
+        return
+    if name == "pickle":
+        _CLONE[id(S)] = _clone_snap(pickle.loads(pickle.dumps(S)))
+        return
+    if name == "construct":
+        _CLONE[id(S)] = _clone_snap(xgi.SimplicialComplex(S, **A(op["attr"])))
+        return
     raise AssertionError(name)
 
 
@@ -260,6 +285,7 @@ def call(S, op):
     """perform the call; record the order hints (creation order of new edges / new nodes) for the model"""
     name = op["op"]
     _RES.pop(id(S), None)
+    _CLONE.pop(id(S), None)
     if name not in HINTED:
         return _plain(S, op)
     pre_e, pre_n = set(S.edges), set(S.nodes)
@@ -290,6 +316,7 @@ def snapshot(S, out="ok"):
     as sorted id lists, for which `has_simplex` answers True — evaluated through the public method)"""
     s = hg.snapshot(S, out)
     s["res"] = _RES.pop(id(S), None)
+    s["clone"] = _CLONE.pop(id(S), None)
     nodes = list(S.nodes)
     has = []
     if len(nodes) <= 8:
